@@ -5,6 +5,7 @@
 -/
 import Nervus.Proofs.CrashPlan
 import Nervus.Proofs.CrashImg
+import Nervus.Proofs.CrashTree
 namespace Nervus.Crash
 
 def allNodes (T : List Tx) : List Nat := T.flatMap (·.nodes)
@@ -19,17 +20,44 @@ structure Booted (p : PImg) : Prop where
   catRoot : p.hdr.catRoot ≠ 0
   cat : ∃ es, p.cat = some es ∧ es.length = 2 ∧ ∀ r ∈ es, r ∈ p.idx
 
-/-- what the committed transactions of the log must look like (no compaction yet: no manifest) -/
+/-- segment lookup as `open` performs it (`CsrSegment::load` of a manifest entry) -/
+def segFind (p : PImg) (k : Nat) : Option SegImg := p.segs.find? (fun s => s.key == k && s.complete)
+def segEdges (p : PImg) (k : Nat) : List Nat := ((segFind p k).map (·.edges)).getD []
+def treeFind (p : PImg) (k : Nat) : Option TreeImg := p.trees.find? (fun t => t.key == k)
+
+/-- transaction ids of the committed transactions grow along the log -/
+def TxMono (cs : List CTx) : Prop := cs.Pairwise (fun a b => a.txid < b.txid)
+
+/-- what the committed transactions of the log must look like: the node records that recovery
+    still replays (transactions after the checkpoint) are positions `c …` of the node list -/
 structure LogOK (T : List Tx) (cs : List CTx) (c : Nat) : Prop where
   nodup : (allNodes T).Nodup
   nozero : 0 ∉ allNodes T
   cle : c ≤ (allNodes T).length
   nodes : nodesOfOps (flatOps (scan cs).ckpt cs) = seqFrom (allNodes T) c ((allNodes T).length - c)
-  edges : ∀ e, e ∈ (logRuns (scan cs).ckpt cs).flatMap (·.edges) ↔ e ∈ allEdges T
-  props : ∀ q, q ∈ (logRuns (scan cs).ckpt cs).flatMap (·.props) ↔ q ∈ allProps T
-  nosegs : (scan cs).segs = []
-  noroot : (scan cs).proot = 0
   ckptle : (scan cs).ckpt ≤ (scan cs).maxTxid
+  mono : TxMono cs
+  maxle : ∀ tx ∈ cs, tx.txid ≤ (scan cs).maxTxid
+
+/-- the live property tree of the manifest (no leaf was ever split): one intact leaf whose entries
+    are properties of `T` (`allowed`) and include, with their value blobs, the `covered` ones -/
+structure TreeOK (allowed covered : List Nat) (t : TreeImg) : Prop where
+  shape : ∃ xs pid, t.leaves = [⟨xs.map some, false, pid⟩] ∧ SortedNat xs ∧ (∀ q ∈ xs, q ∈ allowed) ∧
+    (∀ q ∈ covered, q ∈ xs ∧ q ∈ t.blobs)
+  noinode : t.inode = none
+
+/-- segments and property tree of the manifest hold, together with the runs the log still
+    replays, exactly the edges and properties of `T` -/
+structure StoreOK (T : List Tx) (cs : List CTx) (p : PImg) : Prop where
+  segs : ∀ k ∈ (scan cs).segs, (segFind p k).isSome
+  segKeys : ∀ s ∈ p.segs, s.key < p.hdr.nextPage
+  treeKeys : ∀ t ∈ p.trees, t.key < p.hdr.nextPage
+  edges : ∀ e, e ∈ (scan cs).segs.flatMap (segEdges p) ++ (logRuns (scan cs).ckpt cs).flatMap (·.edges) ↔ e ∈ allEdges T
+  runProps : ∀ q ∈ (logRuns (scan cs).ckpt cs).flatMap (·.props), q ∈ allProps T
+  ptop : (scan cs).ptop = false
+  props : ∃ covered, (∀ q ∈ allProps T, q ∈ (logRuns (scan cs).ckpt cs).flatMap (·.props) ∨ q ∈ covered) ∧
+    ((scan cs).proot = 0 → covered = []) ∧
+    ((scan cs).proot ≠ 0 → ∃ t, treeFind p (scan cs).proot = some t ∧ TreeOK (allProps T) covered t)
 
 /-- the node table on disk is a prefix of the node list that covers everything the log no longer
     replays (`c` nodes) -/
@@ -42,7 +70,7 @@ structure PagerOK (N : List Nat) (c : Nat) (p : PImg) : Prop where
 
 /-- page file `p` and log `w` represent the committed transaction list `T` -/
 def Rep (T : List Tx) (p : PImg) (w : List Frag) : Prop :=
-  ∃ cs c, committed (readAll w) = .ok cs ∧ LogOK T cs c ∧ PagerOK (allNodes T) c p
+  ∃ cs c, committed (readAll w) = .ok cs ∧ LogOK T cs c ∧ PagerOK (allNodes T) c p ∧ StoreOK T cs p
 
 /-! ### slots -/
 
@@ -91,6 +119,19 @@ structure Frame (p0 p : PImg) : Prop where
   nextPage : p0.hdr.nextPage ≤ p.hdr.nextPage
 
 theorem Frame.refl (p : PImg) : Frame p p := ⟨rfl, rfl, rfl, rfl, rfl, rfl, Nat.le_refl _, Nat.le_refl _⟩
+
+theorem Frame.store {p0 p : PImg} {T : List Tx} {cs : List CTx} (f : Frame p0 p) (h : StoreOK T cs p0) : StoreOK T cs p where
+  segs := by intro k hk; simpa [segFind, f.segs] using h.segs k hk
+  segKeys := by intro s hs; rw [f.segs] at hs; exact Nat.lt_of_lt_of_le (h.segKeys s hs) f.nextPage
+  treeKeys := by intro t ht; rw [f.trees] at ht; exact Nat.lt_of_lt_of_le (h.treeKeys t ht) f.nextPage
+  edges := by
+    have : segEdges p = segEdges p0 := by funext k; simp [segEdges, segFind, f.segs]
+    intro e; rw [this]; exact h.edges e
+  runProps := h.runProps
+  ptop := h.ptop
+  props := by
+    obtain ⟨cov, h1, h2, h3⟩ := h.props
+    exact ⟨cov, h1, h2, fun hne => by simpa [treeFind, f.trees] using h3 hne⟩
 
 theorem Frame.booted {p0 p : PImg} (f : Frame p0 p) (b : Booted p0) : Booted p where
   init := by rw [f.init]; exact b.init
